@@ -35,6 +35,18 @@ TEXT = {
             'Every emit-flag subset x store_schema override x emit_step x schedule (and a structural add/delete history) is executed with a recording user Emitter; each emit() call is compared with an independently filtered snapshot, row times with the ideal-timeline batch times, larger emit_step runs with the emit_step-1 run of the same world.',
             'Snapshot = Engine.state.get_value() read inside emit(); flagged set computed from the world spec; liveness clause for emit_step > 1 as stated in DESIGN.',
             'bounded exhaustive execution enumeration with per-emit snapshot oracle, ideal-timeline conformance and emit_step differential'),
+    'C14': ('exploration', '3/C14',
+            'Bounded-exhaustive input enumeration: every value tree up to the stated depth/width over a boundary-value alphabet (incl. nan/inf/huge/tiny magnitudes x compound units) is pushed through serialize_value/deserialize_value and RAMEmitter and compared with an independent normal form; every reject must raise TypeError.',
+            'Values outside the alphabet (arbitrary floats, serializer-shaped strings) are not covered; set order insignificant.',
+            'bounded exhaustive input enumeration against a reference normal form'),
+    'C17': ('exploration', '3/C17',
+            'Exhaustive: all trees of depth <= 3 over two keys x all start nodes x all paths of length <= 3/4 over {a, b, ..} x all node pairs; path laws are checked by node identity on real Store objects and against ten-line reference functions for the dictionary helpers.',
+            'Walks above the root and walks through a leaf are outside the laws.',
+            'exhaustive small-scope enumeration of trees and paths against reference path functions'),
+    'C18': ('exploration', '3/C18',
+            'All 24 variable trees x 1-3 times x cell assignments over falsy/truthy/quantity values (all, or all with <= 2 deviating cells) x all query sets are emitted through RAMEmitter and read back through every accessor; columns, cells and query results are compared with the rows that were emitted.',
+            'Every variable exists at every time; quantity columns keyed (name, unit string).',
+            'bounded exhaustive input enumeration with a round-trip oracle'),
 }
 
 LEVEL_TEXT = {}
